@@ -107,8 +107,11 @@ func c13Generate(r *rand.Rand, nops int) []c13Op {
 		case "Set", "SetNX":
 			op.Val, op.TTL = c13PickScalar(r), c13TTLs[r.Intn(3)]
 		case "SetList":
-			n := r.Intn(4)
+			n := r.Intn(4) // 0: empty list (present-and-empty per memory backend + interface: SetList stores the list)
 			op.List = make([]any, n)
+			if n == 0 && r.Intn(2) == 0 {
+				op.List = nil
+			}
 			for i := range op.List {
 				op.List[i] = c13PickScalar(r)
 			}
@@ -354,6 +357,7 @@ func TestVerifC13Sequential(t *testing.T) {
 	run.Floor("branch_append-after-expiry", 5)
 	run.Floor("branch_remove-by-value", 20)
 	run.Floor("branch_setnx-after-expiry", 5)
+	run.Floor("branch_setlist-empty-over-nonempty", 5)
 	run.Floor("branch_get-after-expiry", 20)
 	run.Floor("branch_setexp-ttl0-on-live", 20)
 	run.Floor("observations_judged_certain", int64(nh)*20)
